@@ -126,8 +126,233 @@ let do_display_shift f line =
       if res <> e then fail "oracle:C10:roundtrip-large-index" ("free indices shifted far away: expected " ^ e) line
   | _ -> fail "format" "display-shift" line
 
+
+(* ---------- data encodings: values, Spec encoders, operation runs *)
+type v =
+  | VN of string * int | VB of bool | VP of v * v | VNone | VSome of v | VOk of v | VErr of v
+  | VL of string * v list | VS of string * int * int | VT of term
+
+(* recursive-descent parser for the value syntax printed by harness/src/bin/ops_run.rs *)
+let parse_value (s : string) : v =
+  let n = String.length s in
+  let pos = ref 0 in
+  let peek () = if !pos < n then s.[!pos] else '\000' in
+  let expect c = if peek () = c then incr pos else failwith (Printf.sprintf "value syntax: expected %c at %d in %s" c !pos s) in
+  let read_while p = let st = !pos in while !pos < n && p s.[!pos] do incr pos done; String.sub s st (!pos - st) in
+  let is_alpha c = (c >= 'a' && c <= 'z') in
+  let is_digit c = (c >= '0' && c <= '9') in
+  let rec value () =
+    let kw = read_while is_alpha in
+    match kw with
+    | "n" -> expect ':'; let e = read_while is_alpha in expect ':'; let k = read_while is_digit in VN (e, int_of_string k)
+    | "b" -> expect ':'; let k = read_while is_digit in VB (k = "1")
+    | "p" -> expect '('; let a = value () in expect ','; let b = value () in expect ')'; VP (a, b)
+    | "none" -> VNone
+    | "some" -> expect '('; let a = value () in expect ')'; VSome a
+    | "ok" -> expect '('; let a = value () in expect ')'; VOk a
+    | "err" -> expect '('; let a = value () in expect ')'; VErr a
+    | "l" -> expect ':'; let e = read_while is_alpha in expect '[';
+        let items = ref [] in
+        if peek () = ']' then incr pos
+        else begin
+          let continue = ref true in
+          while !continue do
+            items := value () :: !items;
+            if peek () = ';' then incr pos else (expect ']'; continue := false)
+          done
+        end;
+        VL (e, List.rev !items)
+    | "s" -> expect ':'; let e = read_while is_alpha in expect ':'; let p = read_while is_digit in expect ',';
+        let q = read_while is_digit in VS (e, int_of_string p, int_of_string q)
+    | "t" -> expect ':';
+        (* a raw term runs to the end of the value: only used at top level *)
+        let rest = String.sub s !pos (n - !pos) in pos := n; VT (parse_term rest)
+    | _ -> failwith ("value syntax: " ^ s)
+  in
+  value ()
+
+let enc_num e k =
+  let k = nat_of_int k in
+  match e with
+  | "church" -> church k | "scott" -> scott k | "parigot" -> parigot k | "stumpfu" -> stumpfu k | "binary" -> binary k
+  | _ -> failwith "encoding"
+
+let rec enc_value = function
+  | VN (e, k) -> enc_num e k
+  | VB b -> bool_t b
+  | VP (a, b) -> pair_t (enc_value a) (enc_value b)
+  | VNone -> none_t
+  | VSome a -> some_t (enc_value a)
+  | VOk a -> ok_t (enc_value a)
+  | VErr a -> err_t (enc_value a)
+  | VL (e, xs) ->
+      let ts = List.map enc_value xs in
+      (match e with "pair" -> pair_list ts | "church" -> church_list ts | "scott" -> scott_list ts
+                  | "parigot" -> parigot_list ts | _ -> failwith "list encoding")
+  | VS (e, p, q) -> pair_t (enc_num e p) (enc_num e q)
+  | VT t -> t
+
+let gen_lookup name =
+  try List.assoc name Gen_table.table with Not_found ->
+    (* tuple projections are macros, not constants *)
+    (match String.split_on_char '_' name with
+     | ["tuple"; "pi"; i; n] -> pi_macro (nat_of_int (int_of_string i)) (nat_of_int (int_of_string n))
+     | _ -> failwith ("unknown constant " ^ name))
+
+let split_args (s : string) : string list =
+  (* top-level values are separated by single spaces; a raw term (t:...) contains spaces, so it is only
+     recognised greedily: everything after "t:" up to the next " n:" / " b:" / ... marker *)
+  let n = String.length s in
+  let out = ref [] and cur = Buffer.create 64 in
+  let starts_value i =
+    let rest = String.sub s i (n - i) in
+    List.exists (fun p -> is_prefix p rest) ["n:"; "b:"; "p("; "none"; "some("; "ok("; "err("; "l:"; "s:"; "t:"] in
+  let i = ref 0 in
+  while !i < n do
+    if s.[!i] = ' ' && !i + 1 < n && starts_value (!i + 1) then (out := Buffer.contents cur :: !out; Buffer.clear cur)
+    else Buffer.add_char cur s.[!i];
+    incr i
+  done;
+  if Buffer.length cur > 0 then out := Buffer.contents cur :: !out;
+  List.rev !out
+
+let do_op f line =
+  match f with
+  | [prop; name; os; args; expected; cmp; res; cs] ->
+      let o = order_of_string os in
+      let argv = List.map parse_value (if args = "" then [] else split_args args) in
+      let ev = parse_value expected in
+      let c = int_of_string cs in
+      let t = List.fold_left (fun acc a -> App (acc, enc_value a)) (gen_lookup name) argv in
+      let tag what = Printf.sprintf "oracle:%s:%s:%s" prop name what in
+      (* correspondence: the model of the reducer on the generated constant and the Spec encodings *)
+      if res <> "PANIC" && res <> "LIMIT" && c <= 30000 then begin
+        match reduce_m big_fuel o (nat_of_int 300000) t with
+        | None -> bump counts "model-out-of-fuel"
+        | Some (mt, mc) ->
+            let ms = if int_of_nat mc >= 300000 then "LIMIT" else ser mt in
+            if ms <> res || (res <> "LIMIT" && int_of_nat mc <> c) then
+              fail "corr:ops" (Printf.sprintf "model=%s count=%d" (if String.length ms > 200 then String.sub ms 0 200 else ms) (int_of_nat mc)) line
+      end else bump counts "ops-model-skipped";
+      (* oracle *)
+      (match cmp with
+       | "eq" ->
+           let e = ser (enc_value ev) in
+           if res <> e then fail (tag (if res = "LIMIT" then "diverges" else if res = "PANIC" then "panic" else "wrong-result"))
+               ("expected " ^ (if String.length e > 300 then String.sub e 0 300 else e)) line
+       | "strip" ->
+           (match ev with
+            | VN ("binary", k) ->
+                if res = "LIMIT" || res = "PANIC" then fail (tag "diverges") "" line
+                else (match dec_binary (parse_term res) with
+                    | Some v when int_of_nat v = k -> ()
+                    | _ -> fail (tag "wrong-result") (Printf.sprintf "expected a binary numeral of value %d (leading zeroes allowed)" k) line)
+            | _ -> fail "format" "strip" line)
+       | "nf" ->
+           (match normalize (enc_value ev) 3000 20000 with
+            | Some nf ->
+                (* the laws are beta-convertibilities: an eager order may diverge on an instance whose discarded part diverges *)
+                if res = "LIMIT" && (o = APP || o = HAP) then bump counts "law-eager-diverges"
+                else if res <> ser nf then fail (tag (if res = "LIMIT" then "diverges" else "wrong-result")) ("expected " ^ ser nf) line
+            | None -> if res <> "LIMIT" then bump counts "law-rhs-diverges-lhs-not" else bump counts "law-both-diverge")
+       | _ -> fail "format" "cmp" line);
+      if c > 0 then note_nontrivial (name ^ os ^ args); if c > 3 then sample (if String.length line > 300 then String.sub line 0 300 else line)
+  | _ -> fail "format" "op" line
+
+(* bounded convertibility: some leftmost reduct of lhs equals some leftmost reduct of rhs *)
+let do_conv f line =
+  match f with
+  | [prop; name; l; r] ->
+      let reducts t k =
+        let rec go t k acc = if k = 0 then List.rev (t :: acc) else
+            match step_of NOR t with Some u -> go u (k - 1) (t :: acc) | None -> List.rev (t :: acc) in
+        go t k [] in
+      let ls = reducts (parse_term l) 12 and rs = reducts (parse_term r) 12 in
+      if not (List.exists (fun a -> List.exists (fun b -> term_eqb a b) rs) ls) then
+        fail (Printf.sprintf "oracle:%s:%s:not-convertible" prop name) "no common reduct within 12 leftmost steps on each side" line;
+      note_nontrivial ("conv" ^ name ^ l)
+  | _ -> fail "format" "conv" line
+
+(* C12 *)
+let do_num f line =
+  match f with
+  | [e; ks; ts] ->
+      let k = int_of_string ks in
+      let kn = nat_of_int k in
+      let model = (match e with "church" -> into_church kn | "scott" -> into_scott kn | "parigot" -> into_parigot kn
+                            | "stumpfu" -> into_stumpfu kn | "binary" -> into_binary kn | _ -> failwith "enc") in
+      if ser model <> ts then fail "corr:convert" "model of the constructor loop differs" line;
+      let t = parse_term ts in
+      if ser (enc_num e k) <> ts then fail "oracle:C12:shape" "not the documented shape of the numeral" line;
+      if not (closed t) then fail "oracle:C12:closed" "" line;
+      if not (nfb t) then fail "oracle:C12:normal" "" line;
+      let fuel = nat_of_int (k + 2) in
+      let d = (match e with "church" -> dec_church t | "scott" -> dec_scott fuel t | "parigot" -> dec_parigot fuel t
+                          | "stumpfu" -> dec_stumpfu fuel t | "binary" -> dec_binary t | _ -> None) in
+      (match d with Some v when int_of_nat v = k -> () | _ -> fail "oracle:C12:decode" "does not decode back to the number" line);
+      note_nontrivial ("num" ^ e ^ ks)
+  | _ -> fail "format" "num" line
+
+let do_signed f line =
+  match f with
+  | [e; zs; ts] ->
+      let z = int_of_string zs in
+      let enc = (match e with "church" -> Church | "scott" -> Scott | "parigot" -> Parigot | "stumpfu" -> StumpFu | _ -> Binary) in
+      (match into_signed (z > 0) (nat_of_int (abs z)) enc with
+       | Some m -> if ser m <> ts then fail "corr:convert" "model of into_signed differs" line
+       | None -> fail "corr:convert" "model panics" line);
+      let num = enc_num e (abs z) and zero = enc_num e 0 in
+      let exp = if z > 0 then pair_t num zero else pair_t zero num in
+      if ser exp <> ts then fail "oracle:C12:signed" "not the pair (n, zero) / (zero, n) with the zero of the same encoding" line;
+      note_nontrivial ("signed" ^ e ^ zs)
+  | _ -> fail "format" "signed" line
+
+let do_const f line =
+  match f with
+  | [e; _; z; _; o] ->
+      if ser (enc_num e 0) <> z then fail "oracle:C12:zero" "zero() is not the encoding of 0" line;
+      if ser (enc_num e 1) <> o then fail "oracle:C12:one" "one() is not the encoding of 1" line;
+      let g n = ser (gen_lookup (Printf.sprintf "num_%s_%s" e n)) in
+      if g "zero" <> z || g "one" <> o then fail "corr:convert" "generated constant differs" line
+  | _ -> fail "format" "const" line
+
+let do_cont f line =
+  match f with
+  | [kind; e; args; ts] ->
+      let ks = List.filter_map (fun x -> if x = "" then None else Some (int_of_string x)) (String.split_on_char ' ' args) in
+      let nums = List.map (enc_num e) ks in
+      let exp, model = (match kind, nums with
+        | "pair", [a; b] -> pair_t a b, into_pair a b
+        | "some", [a] -> some_t a, into_option (Some a)
+        | "none", [] -> none_t, into_option None
+        | "ok", [a] -> ok_t a, into_result (Inl a)
+        | "err", [a] -> err_t a, into_result (Inr a)
+        | "list-pair", xs -> pair_list xs, into_pair_list xs
+        | "list-church", xs -> church_list xs, into_church_list xs
+        | "list-scott", xs -> scott_list xs, into_scott_list xs
+        | "list-parigot", xs -> parigot_list xs, into_parigot_list xs
+        | _ -> failwith "cont") in
+      if ser model <> ts then fail "corr:convert" "model of the conversion differs" line;
+      if ser exp <> ts then fail ("oracle:C12:container-" ^ kind) "not the canonical container" line;
+      (if String.length kind > 4 && String.sub kind 0 4 = "list" then
+         if ser exp <> ts then fail "oracle:C16:conversion" "list conversion differs from repeated cons" line);
+      note_nontrivial ("cont" ^ kind ^ e ^ args)
+  | _ -> fail "format" "cont" line
+
+let do_from f line =
+  match f with
+  | ["bool"; b; ts] -> if ser (bool_t (b = "1")) <> ts then fail "oracle:C17:from-bool" "" line
+  | _ -> fail "format" "from" line
+
 let dispatch (f : string list) (line : string) =
   match f with
+  | "op" :: r -> bump counts "op"; do_op r line
+  | "conv" :: r -> bump counts "conv"; do_conv r line
+  | "num" :: r -> bump counts "num"; do_num r line
+  | "signed" :: r -> bump counts "signed"; do_signed r line
+  | "const" :: r -> bump counts "const"; do_const r line
+  | "cont" :: r -> bump counts "cont"; do_cont r line
+  | "from" :: r -> bump counts "from"; do_from r line
   | "display-shift" :: r -> bump counts "display-shift"; do_display_shift r line
   | "parse" :: r -> bump counts "parse"; do_parse r line
   | "same" :: r -> bump counts "same"; do_same r line
